@@ -24,6 +24,9 @@ pub struct RunCtx {
     pub thorough: bool,
     /// Quiet mode for shrinking: no counters matter.
     pub shrinking: bool,
+    /// Labelled output digests that must not depend on the process (compared
+    /// across worker processes that differ in their per-process hash keys).
+    pub outputs: Vec<(String, u64)>,
 }
 
 impl RunCtx {
